@@ -413,19 +413,29 @@ func (m *storageModel) add(a netip.Addr, names []string) {
 
 var (
 	probeAddrs = []netip.Addr{netip.MustParseAddr("1.2.3.4"), netip.MustParseAddr("::1"), netip.MustParseAddr("9.9.9.9")}
-	probeNames = []string{"a", "A", "b", "B", "zz"}
+	probeNames = []string{"a", "A", "b", "B", "zz", "ö", "Ö"}
 )
 
 // diff compares every observer of ds with the model; "" means equal.
 func (m *storageModel) diff(ds *hostsfile.DefaultStorage) string {
-	for _, a := range probeAddrs {
+	addrProbes := append([]netip.Addr(nil), probeAddrs...)
+	for a := range m.names {
+		addrProbes = append(addrProbes, a)
+	}
+
+	nameProbes := append([]string(nil), probeNames...)
+	for n := range m.addrs {
+		nameProbes = append(nameProbes, n, strings.ToUpper(n))
+	}
+
+	for _, a := range addrProbes {
 		got := ds.ByAddr(a)
 		if fmt.Sprint(got) != fmt.Sprint(m.names[a]) || (len(m.names[a]) == 0 && len(got) != 0) {
 			return fmt.Sprintf("ByAddr(%s) = %v, want %v", a, got, m.names[a])
 		}
 	}
 
-	for _, n := range probeNames {
+	for _, n := range nameProbes {
 		got := ds.ByName(n)
 		want := m.addrs[asciiLower(n)]
 		if fmt.Sprint(got) != fmt.Sprint(want) {
@@ -522,7 +532,8 @@ type recTemplate struct {
 }
 
 func recordAlphabet() (rs []recTemplate) {
-	lists := [][]string{{}, {"a"}, {"A"}, {"a", "b"}, {"b", "a"}, {"a", "A"}}
+	// Case variants are forced to collide, also outside ASCII.
+	lists := [][]string{{}, {"a"}, {"A"}, {"a", "b"}, {"b", "a"}, {"a", "A"}, {"Ö"}, {"ö", "b"}}
 	for _, a := range probeAddrs[:2] {
 		for _, l := range lists {
 			rs = append(rs, recTemplate{a, l})
@@ -660,6 +671,7 @@ func main() {
 			var w struct {
 				Parse   *parseCase   `json:"parse"`
 				Storage *storageCase `json:"storage"`
+				Chain   []any        `json:"chain"`
 			}
 			if err := json.Unmarshal(c.Replay, &w); err != nil {
 				runlib.EngineErrorf("replay: %v", err)
@@ -674,6 +686,13 @@ func main() {
 				}
 			case w.Storage != nil:
 				if v, what, _ := runStorage(*w.Storage); v != "" {
+					c.Violation("DefaultStorage/"+v, what, w)
+				}
+			case len(w.Chain) == 3:
+				k, _ := w.Chain[0].(float64)
+				again, _ := w.Chain[1].(float64)
+				byName, _ := w.Chain[2].(bool)
+				if v, what := runChain(int(k), int(again), byName); v != "" {
 					c.Violation("DefaultStorage/"+v, what, w)
 				}
 			}
@@ -773,5 +792,65 @@ func main() {
 
 			c.SampleEvery(100_003, func() any { return sc.String() })
 		})
+
+		// Long chains: up to 12 distinct addresses under one name and up to 12
+		// distinct names under one address (beyond any small-size shortcut),
+		// then every earlier element added again in another letter case.
+		maxChain := runlib.Pick(c, 12, 20)
+		for k := 1; k <= maxChain; k++ {
+			for again := 0; again < k; again++ {
+				for _, byName := range []bool{false, true} {
+					if !sh.Mine() {
+						continue
+					}
+
+					c.Eval()
+					c.Family("storage-long-chains")
+					if v, what := runChain(k, again, byName); v != "" {
+						c.Violation("DefaultStorage/"+v, what, map[string]any{"chain": []any{k, again, byName}})
+					}
+
+					c.NontrivialInjective()
+				}
+			}
+		}
 	})
+}
+
+// runChain adds k distinct addresses under one name (byName) or k distinct
+// names under one address, then element `again` once more, and compares.
+func runChain(k, again int, byName bool) (viol, what string) {
+	ds, _ := hostsfile.NewDefaultStorage()
+	m := newStorageModel()
+	add := func(a netip.Addr, names ...string) {
+		ds.Add(&hostsfile.Record{Addr: a, Names: append([]string(nil), names...)})
+		m.add(a, names)
+	}
+
+	var desc []string
+	pv, _ := runlib.Try(func() {
+		for i := 0; i < k; i++ {
+			if byName {
+				add(netip.AddrFrom4([4]byte{10, 0, 0, byte(i + 1)}), "shared.example")
+			} else {
+				add(probeAddrs[0], fmt.Sprintf("host%d.example", i))
+			}
+		}
+
+		if byName {
+			add(netip.AddrFrom4([4]byte{10, 0, 0, byte(again + 1)}), "SHARED.example")
+		} else {
+			add(probeAddrs[0], fmt.Sprintf("HOST%d.example", again))
+		}
+	})
+	desc = append(desc, fmt.Sprintf("k=%d again=%d byName=%v", k, again, byName))
+	if pv != nil {
+		return "panic", fmt.Sprintf("long chain %v panicked: %v", desc, pv)
+	}
+
+	if d := m.diff(ds); d != "" {
+		return "storage", fmt.Sprintf("long chain %v: %s", desc, d)
+	}
+
+	return "", ""
 }
